@@ -184,7 +184,14 @@ func H_C10_bodies() {
 	dir := vxrt.Dir()
 	path := dir + "/f.snap"
 	var body string
-	if vxrt.Bool("header-like-line") {
+	if big := vxrt.Param("big", 0); big > 0 {
+		// an entry larger than bufio's 4096-byte read buffer: several lines before and after a long one
+		filler := make([]byte, big)
+		for i := range filler {
+			filler[i] = 'x'
+		}
+		body = "first line\nsecond line\n" + string(filler) + "\n" + vxrt.Text("tail", 1) + " line after\nlast line"
+	} else if vxrt.Bool("header-like-line") {
 		// a body line shaped like an entry header (but not the header of an entry of this file,
 		// which is known finding K2's class)
 		c := vxrt.Text("hdr-letter", 1)
@@ -277,4 +284,67 @@ func H_C10_ties() {
 	_, err = examineSnaps(reg, []string{path}, "", 1, false, true)
 	vxrt.Assert(err == nil && vxrt.FSStamp() == stamp, "C10:second-run-changes-nothing")
 	vxrt.Assert(vxrt.Eq(readFile(path), after), "C10:second-run-same-bytes")
+}
+
+// H_C10_names: entries of tests with unusual but legal names (brackets, '#', dashes, non-ASCII,
+// benchmark and fuzz prefixes) survive a rewrite - pruning or sorting - with their values.
+func H_C10_names() {
+	vxrt.EnvFixed("NO_COLOR", "1")
+	dir := vxrt.Dir()
+	path := dir + "/f.snap"
+	names := []string{"TestA/[x]", "TestA/]", "TestA/x_-_1", "TestA/#01", "TestÄ/ü", "TestA/a-b", "BenchmarkB/[8]", "FuzzF/seed#1", "TestA/[TestZ_-_1]"}
+	name := names[vxrt.Choice("name", len(names))]
+	mine := frame(name+" - 1", "mine")
+	other := frame("TestB - 1", "x")
+	reg := map[string]map[string]int{path: {name: 1}}
+	update, sortOpt := false, false
+	switch vxrt.Choice("rewrite-reason", 3) {
+	case 0:
+		writeFile(path, other+mine)
+		update = true
+	case 1:
+		// both live; unsorted in natural order whichever way round
+		writeFile(path, frame("TestZZ - 1", "zz")+mine+other)
+		reg[path]["TestB"] = 1
+		reg[path]["TestZZ"] = 1
+		sortOpt = true
+	default:
+		writeFile(path, mine+other)
+		update = true
+	}
+	_, err := examineSnaps(reg, []string{path}, "", 1, update, sortOpt)
+	vxrt.Assert(err == nil, "C10:examine-succeeds")
+	got, _, err := getPrevSnapshot("["+name+" - 1]", path)
+	vxrt.Assert(err == nil, "C10:survivor-present")
+	vxrt.Assert(got == "mine", "C10:survivor-value-unchanged")
+}
+
+// H_C10_secondfile: Clean examines several files in one go; a file that needs neither pruning
+// nor sorting is not written, whatever an earlier or later file of the same run needed.
+func H_C10_secondfile() {
+	vxrt.EnvFixed("NO_COLOR", "1")
+	dir := vxrt.Dir()
+	pa, pb, pc := dir+"/a.snap", dir+"/b.snap", dir+"/c.snap"
+	clean := frame("TestB - 1", "x") + frame("TestB - 2", "y")
+	writeFile(pb, clean)
+	needs := vxrt.Choice("what-the-other-files-need", 3)
+	switch needs {
+	case 0: // a stale entry in the file before and in the file after
+		writeFile(pa, frame("TestA - 1", "a")+frame("TestOld - 1", "stale"))
+		writeFile(pc, frame("TestOld - 2", "stale")+frame("TestC - 1", "c"))
+	case 1: // the others are unsorted
+		writeFile(pa, frame("TestZ - 1", "z")+frame("TestA - 1", "a"))
+		writeFile(pc, frame("TestZ - 2", "z")+frame("TestC - 1", "c"))
+	default: // nothing to do anywhere
+		writeFile(pa, frame("TestA - 1", "a"))
+		writeFile(pc, frame("TestC - 1", "c"))
+	}
+	reg := map[string]map[string]int{pa: {"TestA": 1, "TestZ": 1}, pb: {"TestB": 2}, pc: {"TestC": 1, "TestZ": 2}}
+	stampB := vxrt.FileStamp(pb)
+	obsolete, err := examineSnaps(reg, []string{pa, pb, pc}, "", 1, needs == 0, needs == 1)
+	vxrt.Assert(err == nil, "C10:examine-succeeds")
+	if needs == 0 {
+		vxrt.Assert(len(obsolete) == 2, "C10:both-stale-entries-found")
+	}
+	vxrt.Assert(vxrt.FileStamp(pb) == stampB && readFile(pb) == clean, "C10:file-needing-nothing-is-not-written")
 }
